@@ -1027,6 +1027,169 @@ func concCases(e *env, r *rig.Rand, race bool) ([]c18ConcDesc, []c18CounterDesc)
 	return cs, ks
 }
 
+// ---------------------------------------------------------------- contention tiers (Go-side oracles)
+
+// c18Contention: many goroutines hammer ONE counter with IncCounter and IncCounterBy for long
+// enough to overlap; the reported value is exactly the sum of what was added.
+func c18Contention(w *rig.Writer, thorough bool) {
+	rounds, per := 3, 200000
+	if thorough {
+		rounds, per = 10, 1000000
+	}
+	for round := 0; round < rounds; round++ {
+		name := fmt.Sprintf("verifc18cc%d", atomic.AddInt32(&c18CounterN, 1))
+		id := metrics.AddCounter(name, nil)
+		const g = 8
+		var wg sync.WaitGroup
+		start := make(chan struct{})
+		var want uint64
+		for i := 0; i < g; i++ {
+			by := uint64(i % 4) // 0: IncCounter only; otherwise IncCounterBy(by) mixed with IncCounter
+			for k := 0; k < per; k++ {
+				if by == 0 || k%2 == 0 {
+					want++
+				} else {
+					want += by
+				}
+			}
+			wg.Add(1)
+			go func(by uint64) {
+				defer wg.Done()
+				<-start
+				for k := 0; k < per; k++ {
+					if by == 0 || k%2 == 0 {
+						metrics.IncCounter(id)
+					} else {
+						metrics.IncCounterBy(id, by)
+					}
+				}
+			}(by)
+		}
+		close(start)
+		wg.Wait()
+		got, err := readCounter(name)
+		in := map[string]interface{}{"kind": "counter-contention", "goroutines": g, "adds_per_goroutine": per}
+		if err != nil {
+			w.Fail(rig.GoFailure{Kind: "broken-correspondence", What: "reading a counter from /metrics failed", Input: in, Detail: err.Error()})
+		} else if got != want {
+			w.Fail(rig.GoFailure{Kind: "counterexample", What: "a counter updated by several goroutines at once does not report the sum of the increments applied",
+				Input: in, Detail: fmt.Sprintf("reported %d, increments sum to %d (lost %d)", got, want, want-got)})
+		}
+		w.Count("counter-contention-round")
+	}
+}
+
+// c18OverlappingScrapes: several pollers scrape /metrics at the same time while observers keep
+// observing. Every report of the histogram is consistent in itself (min <= percentiles <= max,
+// non-decreasing) and the counts of all reports of all pollers add up to the observations made.
+func c18OverlappingScrapes(w *rig.Writer, thorough bool) {
+	rounds := 4
+	if thorough {
+		rounds = 20
+	}
+	for round := 0; round < rounds; round++ {
+		h := c18NewHist(false)
+		const observers, pollers, per = 4, 3, 60000
+		var wg sync.WaitGroup
+		start := make(chan struct{})
+		var stop int32
+		for i := 0; i < observers; i++ {
+			wg.Add(1)
+			go func(i int) {
+				defer wg.Done()
+				<-start
+				for k := 0; k < per; k++ {
+					// values grow with time: a report mixing two periods shows as min/max/percentile disorder
+					metrics.ObserveHist(h.id, uint64(1000000+k*observers+i))
+				}
+			}(i)
+		}
+		type rep struct {
+			count uint64
+			pct   []uint64
+		}
+		var mu sync.Mutex
+		var reps []rep
+		var problems []string
+		scrape := func() {
+			all, err := fetchMetrics()
+			if err != nil {
+				mu.Lock()
+				problems = append(problems, err.Error())
+				mu.Unlock()
+				return
+			}
+			r := rep{pct: make([]uint64, 23)}
+			seen := 0
+			for _, l := range all["hist_"+h.name] {
+				st := l.tags["statistic"]
+				v, perr := strconv.ParseUint(l.val, 10, 64)
+				if st == "average" || perr != nil {
+					continue
+				}
+				if st == "count" {
+					r.count = v
+				} else if i, ok := pctlIndex[st]; ok {
+					r.pct[i] = v
+					seen++
+				}
+			}
+			mu.Lock()
+			defer mu.Unlock()
+			if r.count > 0 || seen > 0 {
+				reps = append(reps, r)
+				if seen == 23 {
+					for i := 1; i <= 20; i++ {
+						if r.pct[i] < r.pct[i-1] {
+							problems = append(problems, fmt.Sprintf("percentile%d = %d below percentile%d = %d in one report (count %d)", i*5, r.pct[i], (i-1)*5, r.pct[i-1], r.count))
+							break
+						}
+					}
+					if r.pct[21] < r.pct[19] || r.pct[21] > r.pct[20] || r.pct[22] < r.pct[21] || r.pct[22] > r.pct[20] {
+						problems = append(problems, fmt.Sprintf("percentile99/99.9 = %d/%d outside [percentile95 = %d, max = %d]", r.pct[21], r.pct[22], r.pct[19], r.pct[20]))
+					}
+				}
+			}
+		}
+		var pwg sync.WaitGroup
+		for p := 0; p < pollers; p++ {
+			pwg.Add(1)
+			go func() {
+				defer pwg.Done()
+				<-start
+				for atomic.LoadInt32(&stop) == 0 {
+					scrape()
+				}
+			}()
+		}
+		close(start)
+		wg.Wait()
+		atomic.StoreInt32(&stop, 1)
+		pwg.Wait()
+		scrape() // what is left
+		var sum uint64
+		for _, r := range reps {
+			sum += r.count
+		}
+		in := map[string]interface{}{"kind": "overlapping-scrapes", "observers": observers, "pollers": pollers, "observations": observers * per}
+		if sum != observers*per {
+			problems = append(problems, fmt.Sprintf("the counts of all %d reports add up to %d, %d observations were made", len(reps), sum, observers*per))
+		}
+		if len(problems) > 0 {
+			w.Fail(rig.GoFailure{Kind: "counterexample", What: "overlapping /metrics scrapes: inconsistent latency summary: " + problems[0], Input: in, Detail: fmt.Sprint(problems[:minInt(len(problems), 5)])})
+		}
+		w.Count("overlapping-scrapes-round")
+		w.CountN("overlapping-scrapes-reports", len(reps))
+	}
+}
+
+func minInt(a, b int) int {
+	if a < b {
+		return a
+	}
+	return b
+}
+
 // ---------------------------------------------------------------- main
 
 const c18Rule = "value case: x > 15 (beyond the identity buckets); mono pair: two different values, the larger > 15; " +
@@ -1130,6 +1293,8 @@ func c18(e *env) {
 		d.HTTP = i%4 == 1
 		keep(runConc(w, d))
 	}
+	c18Contention(w, e.tier == "thorough")
+	c18OverlappingScrapes(w, e.tier == "thorough")
 	for i, d := range ks {
 		var pre []uint64
 		if i%3 == 0 {
